@@ -840,5 +840,12 @@ C18_DBAL_SUBSAMPLE = dict(
            ("min(__a, __b)", "Z.min {a} {b}", "Z", {"a": "Z", "b": "Z"}),
            _RNG_CHOICE_N],
     raises=[("Need at least 3 thetas", "rp_raise 4")],
+    # every identifier the REST of the function mentions: its own arguments and locals, numpy array functions, scipy's logsumexp,
+    # C15's pure unranking kernel; NOT `rng`, nothing of numpy.random - a new name there is refused
+    outside_names=["predictions", "variances", "distance_matrix", "distance_factor", "ValueError", ".format", ".shape", "np", ".isnan",
+                   ".nan_to_num", "mask", "padded_variances", "n_plates", "n_thetas", "max_experiments_per_plate", "zip",
+                   "get_combination_at_sorted_index", "ind", "unpacked_indices", "idx1", "idx2", "idx3", ".array", ".errstate", ".log",
+                   "log_triple_dists", "alpha", "exp_factor", ".square", "log_norm_factor", ".sum", "d12", "d13", "d23", "ll",
+                   "logsumexp", ".newaxis", "scores"],
 )
 ALL += [C18_RANDOM_SCORER, C18_RANDOM_HOLDOUT, C18_BALANCED_HOLDOUT, C18_DBAL_SUBSAMPLE]
